@@ -51,7 +51,7 @@ def source(case):
     ident = rust_ident(case["ident"])
     fa = field_attrs(case["rename"], case["spelling"])
     # MC_C01!Decors
-    fa = fa + {"none": [], "ts_readonly": ["#[typeshare(typescript(readonly))]"],
+    fa = fa + {"none": [], "ts_readonly": ["#[typeshare(typescript(readonly))]"], "ts_date": ['#[typeshare(typescript(type = "Date"))]'],
                "type_override": ['#[typeshare(typescript(type = "bigint"), swift(type = "Int"), kotlin(type = "Int"), go(type = "uint"), scala(type = "Short"), python(type = "int"))]']}[case.get("decor", "none")]
     subject = "".join(f"        {a}\n" for a in fa) + f"        {ident}: Option<u32>,\n"
     member = {"S": subject, "N": "        plain_one: String,\n", "head": "        head: bool,\n", "tail": "        tail: bool,\n"}
@@ -153,6 +153,13 @@ def run_cases(chk, cases, prefix_cfgs):
                 ms = members_of(lang0, r["obs"], case, prefix if lang0 in ("swift", "kotlin") else "")
                 if exp is not None:
                     judge_obs(chk, lang, case, ms, exp, prefix)
+                    if lang0 == "typescript" and case.get("decor") == "ts_date" and ms is not None:
+                        # the member has a custom JSON translation (Date): the keys the generated reviver tests bind it once more
+                        subject = exp[LAYOUTS[case.get("layout", "two")].index("S")]
+                        rk = r["obs"].get("reviver_keys", [])
+                        if rk != [subject]:
+                            chk.mismatch(signature(lang, case, "reviver-key!=serde"), f"typescript: the reviver of {case} tests the keys {rk}, serde's key of the Date member is `{subject}`",
+                                         {"case": case, "lang": lang, "prefix": prefix}, [subject], rk)
                 if ms and len(ms) == 2 and case.get("layout", "two") == "two":
                     ident = case["ident"][2:] if case["ident"].startswith("r#") else case["ident"]
                     for m, (idt, ren) in zip(ms, ((ident, case["rename"]), ("plain_one", "none"))):
